@@ -150,6 +150,7 @@ func init() {
 			obs = append(obs, c.OfflineUUID()...)
 			obs = append(obs, c.ReceiveBufferPerPacket()...)
 			obs = append(obs, c.PutAfterRetain("bot")...)
+			obs = append(obs, c.FieldMapUpdates("bot/...")...)
 			// the bot's own dispatch on what the peer sent: indexes and sizes taken from a received packet
 			obs = append(obs, c.TLGObs(pkgPred("bot"), pkgPred("bot"), false)...)
 			obs = append(obs, c.Pools("net/packet")...)
